@@ -93,7 +93,7 @@ func (c10) Gen(r *sim.Rand, c *sim.Case, tier string) {
 				pic = first
 			}
 			data := &world.TData{Vars: map[string]any{"name": fmt.Sprintf("N%d", d)}, Images: map[string][]int{"pic": pic}}
-			ops = append(ops, sim.Op{K: "tpl.render", D: d, I: []int{0, 1, 0, shared}, S: []sim.Str{sim.Str(data.JSON())}})
+			ops = append(ops, sim.Op{K: "tpl.render", D: d, I: []int{0, 1, 0, shared, 1}, S: []sim.Str{sim.Str(data.JSON())}})
 		}
 		for d := 2; d >= 1; d-- {
 			f := r.Intn(3)
